@@ -828,6 +828,41 @@ def run(res, tier, seed):
         "lib/c02.py mirrors `print` to produce the texts; Coq re-derives every text (String.eqb against Model/Ast.v print) before comparing",
     ]
 
+    # ---- name resolution across contexts (functions, parameters, locals, computed values): outside the AST fragment of the
+    #      definition; decided here by the VM model (Model/VM.v load_walk / computed_execute) against the real VM, K2-style
+    sc_inputs = []
+    for _ in range(120 if tier == "quick" else 1500):
+        v = r.choice(["x", "y", "hp"])
+        a, b2 = r.randrange(1, 9), r.randrange(10, 99)
+        expr = r.choice([f"{v} + 1", f"{v} * 3", f"[{v}, {v}]", f"{v} - 2", f"`{{{v}}}`", f"{v} ?? 0"])
+        shape = r.choice([
+            f"{v} = {a}; &cv = {expr}; func g({v}) {{ return cv }}; g({b2})",
+            f"{v} = {a}; &cv = {expr}; func g() {{ {v} = {b2}; return cv }}; g()",
+            f"{v} = {a}; &cv = {expr}; func g({v}) {{ return cv }}; func h({v}) {{ return g({v} + 1) }}; h({b2})",
+            f"&cv = {expr}; func g() {{ {v} = {b2}; cv }}; {v} = {a}; [g(), cv]",
+            f"{v} = {a}; func g() {{ &cw = {expr}; {v} = {b2}; cw }}; g()",
+            f"{v} = {a}; &cv = {expr}; &cw = cv; func g({v}) {{ cw }}; g({b2})",
+            f"{v} = {a}; func g({v}) {{ func k() {{ {v} }}; k() }}; g({b2})",
+            f"{v} = {a}; &cv = {expr}; func g({v}) {{ [cv, {v}] }}; [g({b2}), {v}, cv]",
+            f"func g(u) {{ u[0] = 9; u = 1 }}; {v} = [{a}]; g({v}); {v}",
+            f"{v} = {a}; func g() {{ {v} = {v} + 1; {v} }}; [g(), {v}]",
+        ])
+        parts = shape.split("; ")
+        cut = r.randrange(0, len(parts)) if r.random() < 0.4 else 0
+        sc_inputs.append(k2cases.mk_input("; ".join(parts[cut:]), hist=["; ".join(parts[:cut])] if cut else [], oplimit=30000))
+    sc_rows = k2cases.go_run(sc_inputs)
+    sc_status = k2cases.correspond(sc_inputs, sc_rows, "c02sc")
+    sc_hist = {}
+    for st in sc_status:
+        sc_hist[st[0]] = sc_hist.get(st[0], 0) + 1
+    res.cov["scoping_correspondence"] = {"programs": len(sc_inputs), "status": sc_hist,
+                                         "what": "functions / parameters / locals / computed values read across contexts: real VM vs Model/VM.v (value, variables, counter)"}
+    for inp, st in zip(sc_inputs, sc_status):
+        if st[0] == "bad":
+            res.violation({"what": "name resolution across contexts: the real VM disagrees with the VM model", "why": st[1],
+                           "source": inp["src"].decode("utf-8", "replace"), "history": [h.decode("utf-8", "replace") for h in inp["hist"]]})
+            break
+
     # ---- known findings: deterministic replays
     registered = {f["key"]: f for f in common.known_for(PID)}
     rep_rows = k2cases.go_run([k2cases.mk_input(srcs[-1], hist=srcs[:-1]) for _, srcs, _ in KNOWN_REPLAYS])
